@@ -112,6 +112,11 @@ class CaseTimeout(BaseException):
 
 
 CASE_CPU_LIMIT = float(os.environ.get("VERIF_CASE_CPU_LIMIT", "60"))
+# coarser exploration for the second run under another interpreter mode (mc/props/optimised.py): every INPUT_STRIDE-th case beyond the first
+# INPUT_DENSE ones of each input space, BFS parts to depth BFS_DEPTH_CAP; such a run never claims exhaustiveness
+INPUT_STRIDE = int(os.environ.get("VERIF_INPUT_STRIDE", "1"))
+INPUT_DENSE = int(os.environ.get("VERIF_INPUT_DENSE", "400"))
+BFS_DEPTH_CAP = int(os.environ.get("VERIF_BFS_DEPTH_CAP", "0"))
 
 
 def _on_cpu_limit(signum, frame):
@@ -207,6 +212,8 @@ def _work_inputs(args):
     redo = []
     for idx, case in enumerate(part.gen()):
         if ((idx // ch) + seed) % nshards != shard:
+            continue
+        if INPUT_STRIDE > 1 and idx >= INPUT_DENSE and idx % INPUT_STRIDE:
             continue
         res = _safe_check(part, case)
         acc.add(idx, case, res, seed)
@@ -308,7 +315,7 @@ def run_parts(parts, seed=0, serial=False, log=None):
                 for _, packed in it:
                     _merge(tot, packed)
                 tot["states"] = tot["evals"]
-                tot["exhaustive"] = bool(part.exhaustive) and not tot.get("aborted")
+                tot["exhaustive"] = bool(part.exhaustive) and not tot.get("aborted") and INPUT_STRIDE <= 1
                 if tot.get("aborted"):
                     tot["notes"].append("at least one shard stopped after reporting %d violations; its remaining cases were not evaluated" % MAX_VIOLS_PER_WORKER)
             else:
@@ -335,6 +342,10 @@ def _run_bfs(pi, part, tot, pool, seed, log):
     depth = 0
     tot["depth_completed"] = 0
     while frontier:
+        if BFS_DEPTH_CAP and depth >= BFS_DEPTH_CAP:
+            tot["exhaustive"] = False
+            tot["notes"].append(f"stopped at VERIF_BFS_DEPTH_CAP={BFS_DEPTH_CAP}")
+            break
         if part.max_depth is not None and depth >= part.max_depth:
             tot["notes"].append(f"stopped at declared depth bound {part.max_depth} with "
                                 f"{len(frontier)} unexpanded frontier states")
